@@ -296,7 +296,6 @@ void qsbr::unregister_thread(std::uint64_t quiescent_states_since_epoch_change,
     noexcept
 #endif
 {
-  bool epoch_change_prepared = false;
   UNODB_DETAIL_VERIF_HOOK(::unodb::verif::ev::Q_STATE_LOAD, &state);
   auto old_state = state.load(std::memory_order_acquire);
 
@@ -332,25 +331,67 @@ void qsbr::unregister_thread(std::uint64_t quiescent_states_since_epoch_change,
     const auto advance_epoch =
         remove_thread_from_old_epoch && (old_threads_in_previous_epoch == 1);
 
-    const auto new_state =
-        UNODB_DETAIL_UNLIKELY(remove_thread_from_old_epoch)
-            ? qsbr_state::
-                  dec_thread_count_threads_in_previous_epoch_maybe_advance(
-                      old_state, advance_epoch)
-            : qsbr_state::dec_thread_count(old_state);
-
-    if (UNODB_DETAIL_UNLIKELY(remove_thread_from_old_epoch)) {
+    if (UNODB_DETAIL_UNLIKELY(remove_thread_from_old_epoch))
       thread_epoch_change_barrier();
 
-      if (UNODB_DETAIL_UNLIKELY(advance_epoch) &&
-          UNODB_DETAIL_LIKELY(!epoch_change_prepared)) {
-        // Handle global orphans only once for one epoch change. We cannot do
-        // this after setting the new state as then other threads may proceed
-        // with subsequent epoch changes.
-        epoch_change_barrier_and_handle_orphans(old_single_thread_mode);
-        epoch_change_prepared = true;
+    if (UNODB_DETAIL_UNLIKELY(advance_epoch)) {
+      // This thread is the last one in the previous epoch, so its departure
+      // changes the epoch. Claim the epoch change first, by taking the number
+      // of threads in the previous epoch to zero with a CAS that validates
+      // the state loaded above - the same transition quiescent() makes with
+      // its fetch_sub. Only then handle the global orphans: doing that on a
+      // not yet validated state would act on a possibly stale snapshot
+      // (threads may have registered, and requests may have been orphaned
+      // since), executing requests too early.
+      const auto claimed_state =
+          qsbr_state::dec_threads_in_previous_epoch(old_state);
+      UNODB_DETAIL_VERIF_HOOK(::unodb::verif::ev::Q_STATE_CAS, &state);
+      if (UNODB_DETAIL_UNLIKELY(!state.compare_exchange_weak(
+              old_state, claimed_state, std::memory_order_acq_rel,
+              std::memory_order_acquire)))
+        continue;  // LCOV_EXCL_LINE
+
+      // The epoch change is now in progress and it is ours: until the new
+      // epoch is published below, other threads can only change the thread
+      // count.
+      epoch_change_barrier_and_handle_orphans(old_single_thread_mode);
+
+      old_state = claimed_state;
+      while (true) {
+        const auto new_state = qsbr_state::inc_epoch_reset_previous(
+            qsbr_state::dec_thread_count(old_state));
+        UNODB_DETAIL_VERIF_HOOK(::unodb::verif::ev::Q_STATE_CAS, &state);
+        if (UNODB_DETAIL_LIKELY(state.compare_exchange_weak(
+                old_state, new_state, std::memory_order_acq_rel,
+                std::memory_order_acquire)))
+          break;
       }
+
+      // Might be the first time the quitting thread saw the old epoch too, if a
+      // second-to-last thread quit before, advancing the epoch.
+      qsbr_thread.advance_last_seen_epoch(old_single_thread_mode, old_epoch);
+#ifdef UNODB_DETAIL_WITH_STATS
+      bump_epoch_change_count();
+#endif  // UNODB_DETAIL_WITH_STATS
+      qsbr_thread.execute_previous_requests(old_single_thread_mode,
+                                            old_epoch.advance());
+      qsbr_thread.orphan_pending_requests();
+
+#ifdef UNODB_DETAIL_WITH_STATS
+      if (UNODB_DETAIL_UNLIKELY(thread_epoch != old_epoch)) {
+        register_quiescent_states_per_thread_between_epoch_changes(
+            quiescent_states_since_epoch_change);
+      }
+#endif  // UNODB_DETAIL_WITH_STATS
+
+      return;
     }
+
+    const auto new_state =
+        UNODB_DETAIL_UNLIKELY(remove_thread_from_old_epoch)
+            ? qsbr_state::dec_thread_count_and_threads_in_previous_epoch(
+                  old_state)
+            : qsbr_state::dec_thread_count(old_state);
 
     UNODB_DETAIL_VERIF_HOOK(::unodb::verif::ev::Q_STATE_CAS, &state);
     if (UNODB_DETAIL_LIKELY(state.compare_exchange_weak(
@@ -359,13 +400,6 @@ void qsbr::unregister_thread(std::uint64_t quiescent_states_since_epoch_change,
       // Might be the first time the quitting thread saw the old epoch too, if a
       // second-to-last thread quit before, advancing the epoch.
       qsbr_thread.advance_last_seen_epoch(old_single_thread_mode, old_epoch);
-      if (UNODB_DETAIL_UNLIKELY(advance_epoch)) {
-#ifdef UNODB_DETAIL_WITH_STATS
-        bump_epoch_change_count();
-#endif  // UNODB_DETAIL_WITH_STATS
-        qsbr_thread.execute_previous_requests(old_single_thread_mode,
-                                              old_epoch.advance());
-      }
       qsbr_thread.orphan_pending_requests();
 
 #ifdef UNODB_DETAIL_WITH_STATS
